@@ -28,6 +28,57 @@ IDENTS = ["a", "A", "ab", "Ab", "aB", "&1", "b_", "1x", "a-b", "&"]
 KEYSTR = {"name": ".NAME", "ident": "EDIF.identifier"}
 
 
+READER_FILES = ["EDIF_netlists/AND_gate.edf.zip", "EDIF_netlists/TMR_hierarchy.edf.zip", "EDIF_netlists/namespace.edf.zip",
+                "EDIF_netlists/hierarchical_luts.edf.zip", "EDIF_netlists/n_bit_counter.edf.zip", "EDIF_netlists/toggle.edf.zip",
+                "EDIF_netlists/three_layer_hierarchy.edf.zip", "EDIF_netlists/unused_blackbox.edf.zip", "EDIF_netlists/multi_port.edf.zip",
+                "eblif_netlists/toggle.eblif.zip", "eblif_netlists/synchronouscounter.eblif.zip",
+                "verilog_netlists/namespace.v.zip", "verilog_netlists/inverter.v.zip", "verilog_netlists/TMR_hierarchy.v.zip",
+                "verilog_netlists/three_layer_hierarchy.v.zip", "verilog_netlists/unused_blackbox.v.zip", "verilog_netlists/carrychain.v.zip"]
+
+
+def load_ops(W, nl, base):
+    """label every element of a reader-built netlist (labels from `base` upwards per class) and return the model
+    calls that build the same names by hand: the reader's netlist must be indexed exactly like that one"""
+    nxt = {k: base for k in KINDS}
+
+    def reg(kind, o):
+        lab = nxt[kind]
+        nxt[kind] += 1
+        W.objs[kind][lab] = o
+        W.lab[id(o)] = (kind, lab)
+        W.keep.append(o)
+        return [kind, lab]
+
+    def ci(p, c, o):
+        return {"t": "createIn", "p": p, "c": c, "name": o._data.get(".NAME"), "ident": o._data.get("EDIF.identifier")}
+    pol = nl._data.get(".NS")
+    ops = [{"t": "setDefault", "pol": pol}] if pol else []
+    n = reg("netlist", nl)
+    ops.append({"t": "create", "e": n})
+    for key, mk in ((".NAME", "name"), ("EDIF.identifier", "ident")):
+        if key in nl._data:
+            ops.append({"t": "setKey", "e": n, "k": mk, "v": nl._data[key]})
+    for lib in nl._libraries:
+        l = reg("library", lib)
+        ops.append(ci(n, l, lib))
+        for d in lib._definitions:
+            dd = reg("definition", d)
+            ops.append(ci(l, dd, d))
+            for ck in ("port", "cable", "instance"):
+                for x in getattr(d, LISTATTR[ck]):
+                    ops.append(ci(dd, reg(ck, x), x))
+    t = nl._top_instance
+    if t is not None and id(t) not in W.lab:
+        tt = reg("instance", t)
+        ops.append({"t": "create", "e": tt})
+        for key, mk in ((".NAME", "name"), ("EDIF.identifier", "ident")):
+            if key in t._data:
+                ops.append({"t": "setKey", "e": tt, "k": mk, "v": t._data[key]})
+    if pol:
+        ops.append({"t": "setDefault", "pol": "DEFAULT"})
+    return ops
+
+
 def legal_ident(v):
     """independent transcription of the EDIF identifier rule (ASCII)"""
     ok = set("abcdefghijklmnopqrstuvwxyzABCDEFGHIJKLMNOPQRSTUVWXYZ0123456789_")
@@ -123,6 +174,11 @@ def execute(W, op):
             W.objs[kind][op["c"][1]] = o
             W.lab[id(o)] = (kind, op["c"][1])
             W.keep.append(o)
+        elif t == "load":
+            import os as _os
+            from common.ctx import REPO as _REPO
+            nl = sdn.parse(_os.path.join(_REPO, "example_netlists", op["file"]))
+            W.loaded_ops = load_ops(W, nl, op.get("base", 0))
         elif t == "clone":
             o = W.get(op["e"])
             c = o.clone()
@@ -170,8 +226,14 @@ def queries(W, drv, rng, full):
             continue
         P = W.get(e)
         for ck in CHILD_KINDS[e[0]]:
+            present = {"name": sorted(set(c._data[".NAME"] for c in getattr(P, LISTATTR[ck]) if isinstance(c._data.get(".NAME"), str)) - set(NAMES)),
+                       "ident": sorted(set(c._data["EDIF.identifier"] for c in getattr(P, LISTATTR[ck]) if isinstance(c._data.get("EDIF.identifier"), str)) - set(IDENTS))}
             for key, vals in (("name", NAMES), ("ident", IDENTS)):
                 cand = vals if full else rng.sample(vals, 2)
+                extra = [v for v in present[key] if not any(ch in v for ch in "*?[")]
+                if extra:
+                    pick = rng.sample(extra, min(2, len(extra)))
+                    cand = list(cand) + pick + [v.swapcase() for v in pick[:1]]
                 for v in cand:
                     got = sorted(W.el(x) for x in GET[ck](P, v, key=KEYSTR[key]))
                     pol = P._data.get(".NS")
@@ -369,9 +431,39 @@ def run_script(ops_or_len, rng, drv, res, fast=True, c14=False):
     n = ops_or_len if gen else len(ops_or_len)
     script = []
     prefix = scenario_prefix(rng) if gen and rng.random() < 0.3 else []
+    if gen and rng.random() < 0.08:
+        prefix = [{"t": "load", "file": rng.choice(READER_FILES)}]
     try:
         for k in range(n):
             op = (prefix[k] if k < len(prefix) else gen_op(rng, W)) if gen else ops_or_len[k]
+            if op["t"] == "load":
+                if W.all_els():
+                    continue
+                script.append(op)
+                out = execute(W, op)
+                if out != "ok":
+                    findings.append({"kind": "spec", "signature": "load.reader_raises_on_bundled_file", "step": len(script) - 1, "detail": "%s: %s" % (op["file"], out)})
+                    break
+                for mop in W.loaded_ops:
+                    m = drv.ask({"cmd": "nop", "op": mop})
+                    if m.get("res") != "ok":
+                        findings.append({"kind": "corr", "signature": "names.load.model_refuses_what_the_reader_built", "step": len(script) - 1,
+                                         "detail": "%r -> %s" % (mop, m.get("res") or m.get("error"))})
+                        break
+                if findings:
+                    break
+                res.dist("nop:load:" + op["file"].split("/")[0])
+                for clause, detail in uniqueness_problems(W):
+                    findings.append({"kind": "spec", "signature": "load.%s" % clause, "step": len(script) - 1, "detail": detail})
+                di = dump_impl(W)
+                dm = canon_model(drv.ask({"cmd": "ndump", "els": W.all_els()}))
+                if di != dm:
+                    diff = [(a, b) for a, b in zip(di, dm) if a != b][:3]
+                    findings.append({"kind": "corr", "signature": "names.load.state", "step": len(script) - 1, "detail": "reader-built netlist is not indexed like the hand-built one",
+                                     "impl": [d[0] for d in diff], "model": [d[1] for d in diff]})
+                if findings:
+                    break
+                continue
             if op["t"] == "createIn":
                 if W.get(op["p"]) is None or W.get(op["c"]) is not None:
                     continue
@@ -389,6 +481,12 @@ def run_script(ops_or_len, rng, drv, res, fast=True, c14=False):
                     what = "element data / containment / tables" if snap1[0] != snap0[0] else "lookup answers"
                     findings.append({"kind": "spec", "prop": "C14", "signature": "names.%s.refused_%s.state_changed" % (op["t"], out),
                                      "step": len(script) - 1, "detail": "refused call changed %s" % what})
+            if op["t"] == "clone" and out == "assert":
+                # Netlist/Library/Definition.clone assert on connectivity that the naming histories may have made
+                # ill-formed (a port moved to another definition with its pins still wired): not a naming matter
+                script.pop()
+                res.dist("nop:clone:skipped_ill_formed_connectivity")
+                continue
             m = drv.ask({"cmd": "nop", "op": {kk: v for kk, v in op.items() if kk not in ("via_prop", "assign_none")}})
             if "error" in m:
                 raise RuntimeError("driver rejected %r: %s" % (op, m["error"]))
